@@ -299,7 +299,7 @@ func run(r *harness.Run) {
 	if r.Replaying() {
 		return
 	}
-	K := r.Pick(3, 3)
+	K := r.Pick(2, 3)
 	vals := []int64{-1, L - 1, L, L + 1} // -1 = absent
 	base := func(v int64) pl {
 		p := pl{}
@@ -371,7 +371,11 @@ func run(r *harness.Run) {
 			} else if acc && changed > 0 {
 				r.Nontrivial(fmt.Sprintf("%s|%s|%d|%s", j.ver, j.sender, j.oi, cur.json()))
 			}
-			if changed == K {
+			kk := K
+			if r.Quick() && (j.ver == "10" || j.ver == "12") {
+				kk = 3 // the quick tier goes one level deeper on two representative versions
+			}
+			if changed == kk {
 				return
 			}
 			for i := start; i < len(menu); i++ {
